@@ -3,7 +3,8 @@ import refcheck, audit, os, vlib
 
 SUF = ["alpha", "beta", "pre", "rc", "cvs", "svn", "git", "hg", "p"]
 def gen(rnd, n):
-    s = ".".join(str(rnd.choice([0, 0, 1, 1, 2, 10, 11, 2147483648])) for _ in range(n))
+    # small numbers, 2^31, and 6-9 digit components (several of them make a numeric part of 20-40 characters)
+    s = ".".join(str(rnd.choice([0, 0, 1, 1, 2, 10, 11, 2147483648, 100000, 999999, 20240115, 999999999])) for _ in range(n))
     if rnd.random() < 0.3: s += rnd.choice("abz")
     for _ in range(rnd.choice([0, 0, 1, 1, 2, 3])):
         s += "_" + rnd.choice(SUF) + rnd.choice(["", "", "0", "1", "2", "10", "999999999", "1000000000", "2147483648", "20210530193627"])
